@@ -314,14 +314,55 @@ func (w *World) verifyFunc(key string) (fc *FuncCtx) {
 		// `opt noglobals`: what the function hands out is built from its arguments and fresh objects only: it refers
 		// to no package-level variable (a value kept in one would be shared between its callers)
 		seen := map[string]bool{}
+		// the types a result (or a field of a result struct) can hold
+		var sinks []types.Type
+		for i := 0; i < sig.Results().Len(); i++ {
+			rt := sig.Results().At(i).Type()
+			sinks = append(sinks, rt)
+			if pt, ok := rt.Underlying().(*types.Pointer); ok {
+				rt = pt.Elem()
+			}
+			if stt, ok := rt.Underlying().(*types.Struct); ok {
+				for j := 0; j < stt.NumFields(); j++ {
+					sinks = append(sinks, stt.Field(j).Type())
+				}
+			}
+		}
+		// a package-level variable matters when it holds, directly or as an element, something a result could hold
+		// (a logger or a counter the constructor merely uses is not handed out)
+		var couldFlow func(t types.Type, depth int) bool
+		couldFlow = func(t types.Type, depth int) bool {
+			for _, s := range sinks {
+				if _, basic := s.Underlying().(*types.Basic); basic {
+					continue
+				}
+				if types.AssignableTo(t, s) {
+					return true
+				}
+			}
+			if depth >= 2 {
+				return false
+			}
+			switch u := t.Underlying().(type) {
+			case *types.Map:
+				return couldFlow(u.Elem(), depth+1)
+			case *types.Slice:
+				return couldFlow(u.Elem(), depth+1)
+			case *types.Array:
+				return couldFlow(u.Elem(), depth+1)
+			case *types.Pointer:
+				return couldFlow(u.Elem(), depth+1)
+			}
+			return false
+		}
 		ast.Inspect(decl.Body, func(n ast.Node) bool {
 			id, ok := n.(*ast.Ident)
 			if !ok {
 				return true
 			}
-			if v, ok := fc.info.Uses[id].(*types.Var); ok && !v.IsField() && v.Pkg() != nil && v.Parent() == v.Pkg().Scope() && !seen[v.Name()] {
+			if v, ok := fc.info.Uses[id].(*types.Var); ok && !v.IsField() && v.Pkg() != nil && v.Parent() == v.Pkg().Scope() && !seen[v.Name()] && couldFlow(v.Type(), 0) {
 				seen[v.Name()] = true
-				fc.oblige(st, "noglobals", v.Name(), "false", id, "refers to the package-level variable "+v.Name()+": "+why)
+				fc.oblige(st, "noglobals", v.Name(), "false", id, "refers to the package-level variable "+v.Name()+", which can hold what the function hands out: "+why)
 			}
 			return true
 		})
